@@ -288,7 +288,10 @@ func Spawn(f func()) int {
 		defer func() {
 			if r := recover(); r != nil {
 				switch r.(type) {
-				case HaltAbort, DeadlockAbort, BudgetExceeded:
+				case HaltAbort, DeadlockAbort:
+					// the run is ending (exit / detected deadlock, which the
+					// oracles report): unwinding a task this way is expected
+				case BudgetExceeded:
 					if PanicHandler == nil {
 						TaskPanics++
 					}
@@ -622,7 +625,7 @@ func Y(site int) {
 	if gcNext < nGC && Steps >= gcAt[gcNext] {
 		gcNext++
 		GCFired++
-		runtime.GC()
+		ForceGC()
 	}
 	if !replay && NTapeOut < MaxTape {
 		if t.opSteps == t.opLimit>>1 && !fallback && nTasks > 1 {
